@@ -298,7 +298,7 @@ def toggle_cases(draw):
     nline = 20   # ieee14 has 20 lines (incl. transformers)
     k = draw(st.lists(st.integers(0, nline - 1), min_size=1, max_size=3, unique=True))
     times = [float(round(draw(st.floats(0.1, 0.9)), 3)) for _ in k]
-    return dict(case='ieee14/ieee14.json', lines=k, times=times, tf=1.0)
+    return dict(case='ieee14/ieee14.json', lines=k, times=times, tf=1.0, mode=draw(st.sampled_from(['toggle', 'toggle', 'custom'])))
 
 
 def toggle_case(ctx, c):
@@ -306,8 +306,10 @@ def toggle_case(ctx, c):
     ss = build.load_case(os.path.join(build.cases_root(), c['case']), rc={'TDS': dict(no_tqdm=1, tf=c['tf'], criteria=0),
                                                                             'PFlow': dict(report=0)}, setup=False)
     lidx = list(ss.Line.idx.v)
-    for j, (k, t) in enumerate(zip(c['lines'], c['times'])):
-        ss.add('Toggle', dict(idx='TG%d' % j, model='Line', dev=lidx[k % len(lidx)], t=t))
+    custom = c.get('mode') == 'custom'
+    if not custom:
+        for j, (k, t) in enumerate(zip(c['lines'], c['times'])):
+            ss.add('Toggle', dict(idx='TG%d' % j, model='Line', dev=lidx[k % len(lidx)], t=t))
     ss.setup()
     if not ss.PFlow.run():
         return
@@ -322,7 +324,19 @@ def toggle_case(ctx, c):
         return r
     ss.connectivity = spy
     try:
-        ss.TDS.run()
+        if custom:
+            # the documented route for perturbation files and stepwise simulation: change the status, flag a custom event
+            for k, t in sorted(zip(c['lines'], c['times']), key=lambda z: z[1]):
+                ss.TDS.config.tf = t
+                ss.TDS.run()
+                dev = lidx[k % len(lidx)]
+                ss.Line.alter('u', dev, 1 - int(ss.Line.get(src='u', idx=dev, attr='v')))
+                ss.TDS.custom_event = True
+            ss.TDS.config.tf = c['tf']
+            ss.TDS.run()
+            ctx.count('toggle:custom_event_mode')
+        else:
+            ss.TDS.run()
     except Exception as e:
         ctx.count('toggle:run_raised_' + type(e).__name__)
     # oracle at the end state
@@ -330,13 +344,15 @@ def toggle_case(ctx, c):
              lines=[dict(bus1=b1, bus2=b2, u=int(u)) for b1, b2, u in zip(ss.Line.bus1.v, ss.Line.bus2.v, ss.Line.u.v)],
              jumpers=[], slacks=[dict(bus=b, u=int(u)) for b, u in zip(ss.Slack.bus.v, ss.Slack.u.v)])
     fired = sorted(t for t in c['times'] if t <= c['tf'])
-    if len([s for s in seen if s[0] > 0]) < len(set(fired)):
+    if not custom and len([s for s in seen if s[0] > 0]) < len(set(fired)):
         ctx.fail('no_recheck_after_event', dict(case=c, rechecks=[s[0] for s in seen]), sig=dict())
-    if seen:
+    if seen or custom:
         comps, deg, pos = graph(p)
         multi = set(x for x in comps if len(x) >= 2)
         iso = sorted(k for k in range(len(deg)) if deg[k] == 0)
-        t_last, sets_last, iso_last = seen[-1]
+        # what the system reports now (not what the last re-check saw: a missing re-check must show)
+        sets_last = [frozenset(int(x) for x in s_) for s_ in ss.Bus.island_sets]
+        iso_last = sorted(int(x) for x in ss.Bus.islanded_buses)
         if set(sets_last) != multi or iso_last != iso:
             ctx.fail('islands_after_event_wrong', dict(case=c, got=[sorted(s) for s in sets_last], got_isolated=iso_last,
                                                        expected=[sorted(s) for s in multi], expected_isolated=iso), sig=dict())
@@ -349,6 +365,20 @@ def camp_toggle(ctx):
     def body(c):
         ctx.evaluated()
         toggle_case(ctx, c)
+    if ctx.shard == 0:
+        # anchor: a switching that isolates a bus, through a Toggle and through a custom event
+        import os
+        ss0 = build.load_case(os.path.join(build.cases_root(), 'ieee14/ieee14.json'), setup=False)
+        deg = {}
+        for b1, b2 in zip(ss0.Line.bus1.v, ss0.Line.bus2.v):
+            deg[b1] = deg.get(b1, 0) + 1
+            deg[b2] = deg.get(b2, 0) + 1
+        leaf = [k for k, (b1, b2) in enumerate(zip(ss0.Line.bus1.v, ss0.Line.bus2.v)) if deg[b1] == 1 or deg[b2] == 1]
+        for mode in ('toggle', 'custom'):
+            c = dict(case='ieee14/ieee14.json', lines=leaf[:1] or [0], times=[0.3], tf=0.6, mode=mode)
+            ctx.current_case = c
+            ctx.count('toggle:anchor_' + mode)
+            body(c)
     drive(ctx, toggle_cases(), body, 3 if ctx.tier == 'quick' else 60, name='toggle', shrink=False,
           budget_s=120 if ctx.tier == 'quick' else 900)
 
